@@ -316,7 +316,7 @@ class Interp:
 
                 for fn_ in (_copy.copy, _copy.deepcopy, lambda o: pickle.loads(pickle.dumps(o))):
                     try:
-                        self.clones = getattr(self, "clones", []) + [fn_(t)]
+                        self.clones = getattr(self, "clones", []) + [(self.cur, fn_(t))]
                     except Exception:  # noqa
                         pass
                 return None
@@ -422,7 +422,9 @@ class Interp:
 
         from .c07 import labelled_spec
 
-        for c in getattr(self, "clones", []):
+        mine = [c for o, c in getattr(self, "clones", []) if o == self.cur]       # (only the copies of the object whose context has just ended)
+        self.clones = [(o, c) for o, c in getattr(self, "clones", []) if o != self.cur]
+        for c in mine:
             before = self.read()
             live = list(self.live)
             absent = [n for n in ("events", "emg", "optical", "platCal") if reftdf.TYPE_CODE[n] not in live]
@@ -449,7 +451,6 @@ class Interp:
                     h.close()
                 except Exception:  # noqa
                     pass
-        self.clones = []
 
     def check_copy_is_read_only(self, cp):
         """the object returned by copy() never saw allow_write(): a mutation through it, in a plain context, must raise and leave the copy untouched"""
